@@ -798,6 +798,12 @@ impl<'a> Exec<'a> {
         rng.shuffle(&mut ids);
         let k = if ids.len() == 1 { 1 } else { rng.range(2.min(ids.len() as u64), ids.len() as u64) as usize };
         ids.truncate(k);
+        // "every choice of source segments": now and then the caller lists a segment twice
+        if rng.chance(1, 8) {
+            let dup = ids[rng.below(ids.len() as u64) as usize];
+            ids.push(dup);
+            self.out.probe("merge_with_repeated_segment_id");
+        }
         self.out.probe("merge_explicit_started");
         // translation check (C04): a waited merge of an unsorted index stacks the alive documents of
         // its sources in the order the segments were given
@@ -827,7 +833,13 @@ impl<'a> Exec<'a> {
         let new_id = meta.id().uuid_string();
         let Some(seg) = after.segments.iter().find(|s| s.segment == new_id) else { return };
         let mut sources: Vec<Vec<u64>> = vec![];
+        let mut seen: Vec<SegmentId> = vec![];
         for id in ids {
+            // a segment listed twice is still one source
+            if seen.contains(id) {
+                continue;
+            }
+            seen.push(*id);
             let sid = id.uuid_string();
             match before.segments.iter().find(|s| s.segment == sid) {
                 Some(s) => sources.push(s.docs.iter().map(|(_, r)| r.uid).collect()),
